@@ -5,6 +5,8 @@ mod codec;
 mod fam_cmp;
 mod fam_validate;
 mod fam_scope;
+mod fam_glob;
+mod util;
 
 use codec::Tok;
 use std::io::{BufRead, Write};
@@ -13,6 +15,7 @@ fn run_case(fam: i64, case: &[Vec<Tok>]) -> Vec<Vec<Tok>> {
     match fam {
         13 => case.iter().map(|l| fam_cmp::run_line(l)).collect(),
         2 => case.iter().map(|l| fam_validate::run_line(l)).collect(),
+        14 => fam_glob::run_case(case),
         5 => case.iter().map(|l| fam_scope::run_line(l)).collect(),
         _ => vec![vec![-99]],
     }
